@@ -6,7 +6,7 @@ CONSTANTS
   MaxFail = 3
   MaxCtl = 0
   Faults = {}
-  Ops = {"Accept", "FirstLogin", "Login", "Knock", "Close", "Kick", "Heartbeat", "Tick", "Unregister"}
+  Ops = {"Accept", "FirstLogin", "Login", "Knock", "Close", "Kick", "Heartbeat", "Tick", "Unregister", "Cloud"}
   Types = {"control", "tunnel"}
   PreAccept = FALSE
   Fixes = @@FIXES@@
